@@ -91,7 +91,7 @@ def mutate(root, rnd, t, ops=None):
     from metapype.model.node import Node
     nodes = list(walk(root))
     known = list(t.node_map)
-    op = rnd.choice(ops or ["drop", "duplicate", "swap", "rename-unknown", "rename-misplaced", "corrupt-content-class", "corrupt-content-unicode",
+    op = rnd.choice(ops or ["drop", "duplicate", "swap", "rename-unknown", "rename-misplaced", "corrupt-content-class", "corrupt-content-reject-class", "corrupt-content-unicode",
                             "add-attr", "remove-attr", "corrupt-attr", "add-unknown-child", "add-misplaced-child", "graft-under-metadata",
                             "clear-content", "set-content-on-empty", "nonstring-attr"])
     n = rnd.choice(nodes)
@@ -112,6 +112,16 @@ def mutate(root, rnd, t, ops=None):
             cls = rnd.choice([c for c in c02.GEN if c != "SURROGATE"])
             n.content = c02.gen(cls, "", rnd)
             op += ":" + cls
+        elif op == "corrupt-content-reject-class":
+            # content from a class the decision table (MC_Content) REJECTS for this node's rule: out-of-range numbers,
+            # unlisted enumeration values, malformed dates ... - invalid for THIS rule, not just unusual
+            unit = t.node_map.get(n.name)
+            rej = [c for c in t.C if c["unit"] == unit and c["verdict"] == "REJECT" and c["enum"] in ("none", "out") and c["cls"] not in ("NONE", "SURROGATE")]
+            if not rej:
+                return None
+            c = rnd.choice(rej)
+            n.content = c02.gen(c["cls"], c["bucket"], rnd)
+            op += ":" + c["cls"] + (":" + c["bucket"] if c["bucket"] else "")
         elif op == "corrupt-content-unicode":
             n.content = rnd.choice(UNICODE_POOL)
         elif op == "add-attr":
